@@ -12,6 +12,10 @@ CLAIMS = {
   text="Coq theorems (Props/C06.v): for every dialect (delimiter <> quote, neither CR/LF) and all rows of CR-free cells of any size, the modelled csv.writer -> open() -> csv.reader round trip is the identity (C06_csv_roundtrip, induction over rows/cells/characters); composed with the run loop, [*][yes()] returns exactly the non-blank records cell for cell (C06_lines) and for EVERY matcher/scan/mode the returned lines are a sub-sequence of the file's records (C06_delivered_as_is); headers are the cleaned first non-blank record (C06_headers, C06_clean_header); #name and #index address the same cell and short rows read as absent (C06_name_index, C06_short_row). Tie: each run compares real csv.writer bytes, real CsvPath(delimiter,quotechar).collect() lines, CsvPath.headers and pushed #index/#name values with the model and with the property, the comparison being computed by the Coq kernel.",
   note="Trusted: Coq kernel; Csv/CsvModel.v as a model of CPython's _csv and universal newlines (tied by correspondence on every generated file); Data/DataModel.v; harness. No axioms.",
   technique="Coq proof (csv round trip + run loop) over hand-written Gallina model + kernel-evaluated differential correspondence"),
+ "C13": dict(
+  text="Coq theorems (Props/C13.v). Adjudication loop of Matcher.matches modelled parametrically in the component evaluator (Match/Adjudicate.v): for EVERY set of functions, a stop() firing in component i leaves exactly components 1..i evaluated and the line returnable only if i is last (C13_stop_line); skip() makes the line not match, evaluates nothing after it and the flag is down when the line ends, also as last component (C13_skip_line); without stop/skip all components run left to right and the answer is the AND/OR of votes (C13_calm_line). Run loop, for EVERY matcher: a stopped step halts the fold (C13_stop_run), an advancing line is counted but not evaluated/returned/matched (C13_advance), last() is true on at most one evaluated line (C13_last_once), the blank final record triggers one frozen evaluation that returns nothing and runs only 'last() ->' components (C13_blank_last, C13_blank_last_only_lasts). Tie: Match/Ctl.v instantiates both models with stop/skip/advance/last/push; the property's finite space (control form x position x firing line x scan window x blank pattern) is enumerated on the real CsvPath and returned lines, every stack, counters and the stop flag are compared with the executable model by the Coq kernel. C13_skip_last_leaks_refuted is the witness of the repaired defect D8.",
+  note="Trusted: Coq kernel; Match/Ctl.v as a transcription of Stopper/Skipper/Advance/Last/Push/_do_when/Function.matches(frozen) for the AND-mode fragment without onmatch (programs with onmatch look-ahead are outside the theorems: partial); harness. No axioms.",
+  technique="Coq proof over parametric adjudication-loop + run-loop models; executable fragment model compared with enumerated real runs by the Coq kernel"),
  "C15": dict(
   text="Coq theorems (Props/C15.v): the two character state machines of metadata_parser.py are modelled exactly; for comments of any length without ~ [ ] $ the csvpath text comes out untouched and the comment goes to the field parser (C15_extract), and any list of rendered 'key: value' fields is recovered (C15_fields, induction over the field list with the parser state as invariant); on the run-loop model, for EVERY matcher: return-mode no-matches flips the returned flag exactly on the offered records and leaves the run state equal (C15_complement), collected/unmatched partition the records read (C15_partition), no-run reads nothing (C15_norun), no-default removes only the stdout printer (C15_print_mode). Tie: real MetadataParser methods vs the model on generated comments (Coq-evaluated), recorded-matcher run-loop correspondence on every real run, and the relations themselves checked between 7 real runs of each generated csvpath (stdout captured at fd level).",
   note="Trusted: Coq kernel; Meta/MetaModel.v (str.isalnum modelled on the generator's alphabet only: ASCII + 3 listed code points) and Run/RunLoop.v as far as the correspondence shows them equal to the code; harness. No axioms.",
